@@ -16,9 +16,17 @@ set: sizeof, the object bytes after construction / assignment / store(), the val
 conversion operator, and load() of an object whose bytes were written with memcpy - against struct.pack in the named
 order, computed here in Python.
 
+Encoding.hh is header-only: its functions are compiled by the CONSUMER's compiler at the CONSUMER's language level, and
+both are visible to the preprocessor (feature-test macros such as __cpp_lib_byteswap, __cplusplus, compiler builtins).
+So the probe is also built per toolchain configuration (LEVELS: clang++ / g++ at C++20 and C++23), and besides the
+wrappers it calls every bswap helper (8/16/24/24s/32/48/48s/64, the float forms, the bswap<> templates), ext24/ext48 and
+sign_extend<R,S> on boundary values: byte reversal of the low N bits, involution, sign extension of the signed forms,
+replication of the top bit - all expectations computed here in Python.
+
 Same command line and result files as a harness on harness/verif.hh (oracle/hyp_common.py).
 """
 import os
+import shutil
 import struct
 import subprocess
 import sys
@@ -51,6 +59,100 @@ FVALUES = {
 }
 RAW = bytes([0x11, 0x22, 0x33, 0x44, 0x55, 0x66, 0x77, 0x88])
 
+# toolchain configurations the consumer's translation unit may be compiled with: (compiler, language level).
+# The first one is the configuration of the project itself and of the main harness; every public header is probed
+# with it, Encoding.hh / Platform.hh / Strings.hh with all of them (thorough: every header with all of them).
+DEFAULT_LEVEL = ("clang++", "c++20")
+LEVELS = [DEFAULT_LEVEL, ("clang++", "c++2b"), ("g++", "c++20"), ("g++", "c++23")]
+LEVEL_HEADERS = ("Encoding.hh", "Platform.hh", "Strings.hh")
+
+M64 = (1 << 64) - 1
+
+
+def _boundary(bits):
+    m = (1 << bits) - 1
+    vals = [0, 1, 2, 0x7F, 0x80, 0xFF, 0x100, 0x0102030405060708, 0x8090A0B0C0D0E0F0, 0xF1E2D3C4B5A69788, 0xDEADBEEFCAFEF00D,
+            0x00FF00FF00FF00FF, m >> 1, (m >> 1) + 1, (m >> 1) + 2, m - 1, m]
+    for k in range(bits // 8):
+        vals += [1 << (8 * k), 0x80 << (8 * k), 0xFF << (8 * k), m & ~(0xFF << (8 * k))]
+    out = []
+    for v in vals:
+        v &= m
+        if v not in out:
+            out.append(v)
+    return out
+
+
+def _rev(x, nbits):
+    return int.from_bytes((x & ((1 << nbits) - 1)).to_bytes(nbits // 8, "little"), "big")
+
+
+def _sx(x, from_bits, to_bits):
+    x &= (1 << from_bits) - 1
+    if x >> (from_bits - 1):
+        x -= 1 << from_bits
+    return x & ((1 << to_bits) - 1)
+
+
+class Fn:
+    """One function of Encoding.hh: C++ expression over `X` (unsigned long long) -> unsigned long long, the width of its
+    argument type, and the Python model of its result (zero-extended bits of the result type)."""
+
+    def __init__(self, name, expr, arg_bits, model, values, involution=None):
+        self.name, self.expr, self.arg_bits, self.model, self.values, self.involution = name, expr, arg_bits, model, values, involution
+
+
+def _functions():
+    fns = []
+    ut = {8: "uint8_t", 16: "uint16_t", 32: "uint32_t", 64: "uint64_t"}
+    st = {8: "int8_t", 16: "int16_t", 32: "int32_t", 64: "int64_t"}
+    # plain helpers: (name, N = bits reversed, argument/result width, signed form?)
+    for name, n, width, signed in (("bswap8", 8, 8, False), ("bswap16", 16, 16, False), ("bswap24", 24, 32, False), ("bswap24s", 24, 32, True),
+                                   ("bswap32", 32, 32, False), ("bswap48", 48, 64, False), ("bswap48s", 48, 64, True), ("bswap64", 64, 64, False)):
+        argt = (st if signed else ut)[width]
+        expr = "(unsigned long long)(%s)phosg::%s((%s)(%s)X)" % (ut[width], name, argt, ut[width])
+        vals = list(_boundary(n))
+        if width > n:
+            # bits above the low N belong to the argument type and must be ignored
+            hi = [0xA5, 0xFF, 0x80, 0x01] if width - n == 8 else [0xA5A5, 0xFFFF, 0x8000, 0x0001]
+            vals += [v | (h << n) for v in _boundary(n)[3:12] for h in hi]
+        model = (lambda x, n=n, width=width, signed=signed: _sx(_rev(x, n), n, width) if signed else _rev(x, n))
+        # applied twice: the low N bits come back (sign-extended by the signed forms)
+        invo = (lambda x, n=n, width=width, signed=signed: _sx(x, n, width) if signed else x & ((1 << n) - 1))
+        fns.append(Fn(name, expr, width, model, vals, invo))
+    # float forms
+    fns.append(Fn("bswap32f(uint32_t)", "fbits(phosg::bswap32f((uint32_t)X))", 32, lambda x: _rev(x, 32), [_rev(v, 32) for v in FVALUES[4]] + FVALUES[4]))
+    fns.append(Fn("bswap32f(float)", "(unsigned long long)phosg::bswap32f(ffrom((uint32_t)X))", 32, lambda x: _rev(x, 32), FVALUES[4]))
+    fns.append(Fn("bswap64f(uint64_t)", "dbits(phosg::bswap64f((uint64_t)X))", 64, lambda x: _rev(x, 64), [_rev(v, 64) for v in FVALUES[8]] + FVALUES[8]))
+    fns.append(Fn("bswap64f(double)", "(unsigned long long)phosg::bswap64f(dfrom((uint64_t)X))", 64, lambda x: _rev(x, 64), FVALUES[8]))
+    # template forms
+    for width in (8, 16, 32, 64):
+        for tt in (ut, st):
+            expr = "(unsigned long long)(%s)phosg::bswap<%s>((%s)(%s)X)" % (ut[width], tt[width], tt[width], ut[width])
+            fns.append(Fn("bswap<%s>" % tt[width], expr, width, (lambda x, w=width: _rev(x, w)), _boundary(width), (lambda x, w=width: x & ((1 << w) - 1))))
+    fns.append(Fn("bswap<float,uint32_t>", "(unsigned long long)phosg::bswap<float, uint32_t>(ffrom((uint32_t)X))", 32, lambda x: _rev(x, 32), FVALUES[4]))
+    fns.append(Fn("bswap<uint32_t,float>", "fbits(phosg::bswap<uint32_t, float>((uint32_t)X))", 32, lambda x: _rev(x, 32), [_rev(v, 32) for v in FVALUES[4]]))
+    fns.append(Fn("bswap<double,uint64_t>", "(unsigned long long)phosg::bswap<double, uint64_t>(dfrom((uint64_t)X))", 64, lambda x: _rev(x, 64), FVALUES[8]))
+    fns.append(Fn("bswap<uint64_t,double>", "dbits(phosg::bswap<uint64_t, double>((uint64_t)X))", 64, lambda x: _rev(x, 64), [_rev(v, 64) for v in FVALUES[8]]))
+    # ext24 / ext48: values that fit, and negative narrow values under stray upper bits (the top bit must reach ALL upper bits)
+    neg24 = [v for v in _boundary(24) if v >> 23]
+    neg48 = [v for v in _boundary(48) if v >> 47]
+    fns.append(Fn("ext24", "(unsigned long long)(uint32_t)phosg::ext24((uint32_t)X)", 32, lambda x: _sx(x, 24, 32),
+                  _boundary(24) + [v | (h << 24) for v in neg24[:8] for h in (0x01, 0x7F, 0xA5)]))
+    fns.append(Fn("ext48", "(unsigned long long)phosg::ext48((uint64_t)X)", 64, lambda x: _sx(x, 48, 64),
+                  _boundary(48) + [v | (h << 48) for v in neg48[:8] for h in (0x0001, 0x7FFF, 0xA5A5)]))
+    # sign_extend<R, S>: every narrower -> wider pair
+    for sb in (8, 16, 32):
+        for stt in (ut, st):
+            for rb in (16, 32, 64):
+                if rb <= sb:
+                    continue
+                for rtt in (ut, st):
+                    expr = "(unsigned long long)(%s)phosg::sign_extend<%s, %s>((%s)(%s)X)" % (ut[rb], rtt[rb], stt[sb], stt[sb], ut[sb])
+                    fns.append(Fn("sign_extend<%s,%s>" % (rtt[rb], stt[sb]), expr, sb, (lambda x, sb=sb, rb=rb: _sx(x, sb, rb)), _boundary(sb)))
+    return fns
+
+
 # headers that are not meant to be included on their own (implementation parts of another header)
 NOT_STANDALONE = ("-inl.hh",)
 
@@ -58,6 +160,11 @@ PROBE_BODY = r"""
 #include <stdint.h>
 #include <stdio.h>
 #include <string.h>
+#if defined(__has_include)
+#if __has_include(<version>)
+#include <version>
+#endif
+#endif
 
 template <typename W, typename T, typename U>
 static void probe(int idx, const U* vals, int n) {
@@ -90,12 +197,32 @@ static void probe(int idx, const U* vals, int n) {
   }
 }
 
+static unsigned long long fbits(float f) { uint32_t u; memcpy(&u, &f, 4); return u; }
+static unsigned long long dbits(double d) { uint64_t u; memcpy(&u, &d, 8); return u; }
+static float ffrom(uint32_t u) { float f; memcpy(&f, &u, 4); return f; }
+static double dfrom(uint64_t u) { double d; memcpy(&d, &u, 8); return d; }
+
+// the values come through a volatile so that the calls are made at run time in the code the optimiser produces,
+// not folded by the front end
+static unsigned long long opaque(unsigned long long v) {
+  volatile unsigned long long q = v;
+  return q;
+}
+
 int main() {
   using namespace phosg;
+#if defined(__cpp_lib_byteswap)
+  printf("M %ld %ld\n", (long)__cplusplus, (long)__cpp_lib_byteswap);
+#else
+  printf("M %ld 0\n", (long)__cplusplus);
+#endif
 @PROBES@
+@FPROBES@
   return 0;
 }
 """
+
+FUNCTIONS = _functions()
 
 
 def values_for(size, is_float):
@@ -111,11 +238,20 @@ def probe_source(first):
             vals = values_for(size, is_float)
             lines.append("  { static const %s v[] = {%s}; probe<%s_%s, %s, %s>(%d, v, %d); }" % (
                 ut, ", ".join("0x%XULL" % v for v in vals), en, sn, sn, ut, idx, len(vals)))
+    flines = []
+    for i, fn in enumerate(FUNCTIONS):
+        body = "unsigned long long X = opaque(v[i]); unsigned long long R = %s; " % fn.expr
+        if fn.involution is not None:
+            body += "X = opaque(R); unsigned long long R2 = %s; printf(\"F %d %%llx %%llx %%llx\\n\", v[i], R, R2);" % (fn.expr, i)
+        else:
+            body += "printf(\"F %d %%llx %%llx -\\n\", v[i], R);" % i
+        flines.append("  { static const unsigned long long v[] = {%s}; for (unsigned i = 0; i < %d; i++) { %s } }" % (
+            ", ".join("0x%XULL" % v for v in fn.values), len(fn.values), body))
     head = ""
     if first != "Encoding.hh":
         head += "#include <phosg/%s>\n" % first
     head += "#include <phosg/Encoding.hh>\n"
-    return head + PROBE_BODY.replace("@PROBES@", "\n".join(lines))
+    return head + PROBE_BODY.replace("@PROBES@", "\n".join(lines)).replace("@FPROBES@", "\n".join(flines))
 
 
 def named_order(endian):
@@ -133,9 +269,15 @@ def headers():
 
 def run_probe(case, rt):
     first, opt = case["first"], case["opt"]
-    if "/" in first or not first.endswith(".hh") or opt not in ("-O0", "-O1", "-O2"):
+    cxx, std = case.get("cxx", DEFAULT_LEVEL[0]), case.get("std", DEFAULT_LEVEL[1])
+    if "/" in first or not first.endswith(".hh") or opt not in ("-O0", "-O1", "-O2") or (cxx, std) not in LEVELS:
         raise hc.Fail("ORACLE-bad-case", repr(case))
-    tag = "%s%s-%d" % (first.replace(".", "_"), opt, os.getpid())
+    level = "%s -std=%s" % (cxx, std)
+    compiler = buildlib.CXX if cxx == "clang++" else shutil.which(cxx)
+    if not compiler:
+        rt.exclude("toolchain configuration not installed on this machine: %s" % level)
+        return
+    tag = "%s%s-%s-%s-%d" % (first.replace(".", "_"), opt, cxx.replace("+", "x"), std.replace("+", "x"), os.getpid())
     workdir = os.path.join(buildlib.BUILD, "c03-probes" + buildlib.ALT)
     os.makedirs(workdir, exist_ok=True)
     src = os.path.join(workdir, "probe-%s.cc" % tag)
@@ -143,14 +285,18 @@ def run_probe(case, rt):
     try:
         with open(src, "w") as f:
             f.write(probe_source(first))
-        cmd = [buildlib.CXX, "-std=c++20", opt, "-w", "-I", buildlib.include_dir(), src, "-o", exe]
+        cmd = [compiler, "-std=" + std, opt, "-w", "-I", buildlib.include_dir(), src, "-o", exe]
         p = subprocess.run(cmd, stdout=subprocess.PIPE, stderr=subprocess.STDOUT)
         if p.returncode != 0:
             text = p.stdout.decode("utf-8", "replace")
             err = next((l.strip() for l in text.split("\n") if "error:" in l), text.strip()[:300])
-            # whether a header can be the first include of a TU is not part of this property: recorded, not judged
-            rt.exclude("header cannot be the first include of a translation unit (probe does not compile): %s" % first)
-            rt.notes.append("include-order probe for %s does not compile: %s" % (first, err[:300]))
+            # whether a header can be the first include of a TU (or compiles with this toolchain at all) is not part of this
+            # property: recorded, not judged
+            if (cxx, std) == DEFAULT_LEVEL:
+                rt.exclude("header cannot be the first include of a translation unit (probe does not compile): %s" % first)
+            else:
+                rt.exclude("probe does not compile with %s: first include %s" % (level, first))
+            rt.notes.append("include-order probe for %s (%s) does not compile: %s" % (first, level, err[:300]))
             return
         out = subprocess.run([exe], stdout=subprocess.PIPE, stderr=subprocess.STDOUT, timeout=120)
     finally:
@@ -160,7 +306,38 @@ def run_probe(case, rt):
             except OSError:
                 pass
     hc.vcheck(out.returncode == 0, "probe-exit", "probe with %s first exited with %d: %s" % (first, out.returncode, out.stdout[-400:]))
-    rows = [l.split() for l in out.stdout.decode("latin-1").split("\n") if l.strip()]
+    all_rows = [l.split() for l in out.stdout.decode("latin-1").split("\n") if l.strip()]
+    rows = [r for r in all_rows if r[0] not in ("F", "M")]
+    how = "first include %s, %s %s" % (first, level, opt)
+    # --- functions of Encoding.hh as this translation unit compiled them
+    fseen = {}
+    config = None
+    for r in all_rows:
+        if r[0] == "M":
+            hc.vcheck(len(r) == 3, "ORACLE-probe-output", "unexpected probe line %r" % (r,))
+            config = "%s: __cplusplus=%s, std::byteswap %s" % (level, r[1], "available" if r[2] != "0" else "not available")
+            continue
+        if r[0] != "F":
+            continue
+        hc.vcheck(len(r) == 5 and int(r[1]) < len(FUNCTIONS), "ORACLE-probe-output", "unexpected probe line %r" % (r,))
+        fn = FUNCTIONS[int(r[1])]
+        x, got = int(r[2], 16), int(r[3], 16)
+        k = fseen.get(int(r[1]), 0)
+        hc.vcheck(k < len(fn.values) and fn.values[k] == x, "ORACLE-probe-output", "function row out of order: %r" % (r,))
+        fseen[int(r[1])] = k + 1
+        want = fn.model(x)
+        kind = "sign_extend" if fn.name.startswith("sign_extend") else "ext" if fn.name.startswith("ext") else "bswap"
+        hc.vcheck(got == want, "%s-value:%s" % (kind, fn.name), "%s(0x%x) returned 0x%x, expected 0x%x (%s)" % (fn.name, x, got, want, how))
+        if fn.involution is not None:
+            back, want2 = int(r[4], 16), fn.involution(x)
+            hc.vcheck(back == want2, "bswap-involution:%s" % fn.name,
+                      "%s applied twice to 0x%x gives 0x%x, expected 0x%x (%s)" % (fn.name, x, back, want2, how))
+    for i, fn in enumerate(FUNCTIONS):
+        hc.vcheck(fseen.get(i, 0) == len(fn.values), "ORACLE-probe-output", "probe printed %d rows for %s" % (fseen.get(i, 0), fn.name))
+    hc.vcheck(config is not None, "ORACLE-probe-output", "probe printed no configuration line")
+    rt.count(sum(len(fn.values) * (2 if fn.involution else 1) for fn in FUNCTIONS))
+    rt.cls("level:" + config)
+    # --- wrappers
     seen = {}
     for r in rows:
         hc.vcheck(len(r) == 9, "ORACLE-probe-output", "unexpected probe line %r" % (r,))
@@ -168,7 +345,6 @@ def run_probe(case, rt):
         en, (sn, size, is_float) = ENDIANS[idx // 8], SCALARS[idx % 8]
         name = "%s_%s" % (en, sn)
         order = named_order(en)
-        how = "first include %s, %s" % (first, opt)
         hc.vcheck(sz == size, "sizeof:%s" % name, "sizeof(%s) is %d, expected %d (%s)" % (name, sz, size, how))
         want = bits.to_bytes(size, order).hex()
         for k, form in enumerate(("construct", "assign", "store")):
@@ -193,6 +369,7 @@ def run_probe(case, rt):
 def enumerate_probes(rt, exec_fn):
     i = 0
     names = []
+    jobs = []
     for h in headers():
         if h.endswith(NOT_STANDALONE):
             if rt.shard == 0:
@@ -200,12 +377,24 @@ def enumerate_probes(rt, exec_fn):
             continue
         names.append(h)
         for opt in ("-O0", "-O2"):
-            if rt.mine(i):
-                exec_fn({"first": h, "opt": opt})
-            i += 1
+            jobs.append({"first": h, "opt": opt})
+    # other language levels / compilers (the default one is covered by the jobs above)
+    for cxx, std in LEVELS[1:]:
+        for h in names:
+            if h in LEVEL_HEADERS or rt.thorough():
+                for opt in ("-O0", "-O2"):
+                    jobs.append({"first": h, "opt": opt, "cxx": cxx, "std": std})
+    # the level jobs are the slow ones (Strings.hh): interleave so that the shards get equal shares
+    for i, job in enumerate(jobs):
+        if rt.mine(i):
+            exec_fn(job)
     rt.exhaustive["include_order"] = ("every public header of the tree (%s) as the first include of a translation unit, followed by "
-                                      "Encoding.hh, at -O0 and -O2: 24 wrappers x 10-11 boundary values x {construct, assign, store, load, "
-                                      "conversion, load of memcpy'd bytes}" % ", ".join(names))
+                                      "Encoding.hh, at -O0 and -O2 with %s -std=%s: 24 wrappers x 10-11 boundary values x {construct, assign, store, "
+                                      "load, conversion, load of memcpy'd bytes} and %d functions (bswap8/16/24/24s/32/48/48s/64, float forms, bswap<>, "
+                                      "ext24, ext48, all sign_extend pairs) x boundary values; %s also with %s"
+                                      % (", ".join(names), DEFAULT_LEVEL[0], DEFAULT_LEVEL[1], len(FUNCTIONS),
+                                         "every header" if rt.thorough() else "/".join(LEVEL_HEADERS),
+                                         ", ".join("%s -std=%s" % l for l in LEVELS[1:])))
 
 
 CHECKS = [hc.Check("include_order", run_probe, enumerate=enumerate_probes)]
